@@ -25,7 +25,7 @@ pub struct Case {
 }
 pub struct C10;
 
-const PUNCT_SEPS: [&str; 12] = [", ", "; ", ": ", "! ", " / ", " ( ", "… ", ". ", ",", "?", " ; ", ") "];
+const PUNCT_SEPS: [&str; 16] = [", ", "; ", ": ", "! ", " / ", " ( ", "… ", ". ", ",", "?", " ; ", ") ", "’ ", "” “", " « ", "\u{a0}» "];
 
 /// ordinary words usable in a strong separator: not number words, not linking words, not the
 /// decimal-separator word, and not the French determiners / `numéro` the documented neuf heuristic keys on
@@ -40,7 +40,7 @@ impl Property for C10 {
         "C10"
     }
     fn rule(&self) -> String {
-        "Metamorphic. Shape asb: A and B from the clean sentence generator (number words of every class, speller phrases, ordinals, conjunction/separator/linking/ordinary words, punctuation; for French also the determiner+neuf shapes of the documented new/nine heuristic, for English `o`), S = ' ' + 3 or 4 ordinary words (no number, linking, separator words; not the French determiners un/le/du/l'/numéro) + '. '; any threshold: rewrite(A S B, t) == rewrite(A, t) ++ S ++ rewrite(B, t). Shape punct: rewrite(spell(a) p spell(b), 0) == a p b for a, b < 10^12 in random variants and p in {', ', '; ', ': ', '! ', ' / ', ' ( ', '… ', '. ', ',', '?', ' ; ', ') '}. Non-trivial = distinct asb cases where A contains a number and B contains a word whose reading can depend on earlier state (fr neuf after le/du/l'/un, en o, a leading small number at t > 0) or A ends with the conjunction / separator word; plus all punct cases with both numbers >= 20.".into()
+        "Metamorphic. Shape asb: A and B from the clean sentence generator (number words of every class, speller phrases, ordinals, conjunction/separator/linking/ordinary words, punctuation; for French also the determiner+neuf shapes of the documented new/nine heuristic, for English `o`), S = ' ' + 3 or 4 ordinary words (no number, linking, separator words; not the French determiners un/le/du/l'/numéro) + '. '; any threshold: rewrite(A S B, t) == rewrite(A, t) ++ S ++ rewrite(B, t). Shape punct: rewrite(spell(a) p spell(b), 0) == a p b for a, b < 10^12 in random variants and p in {', ', '; ', ': ', '! ', ' / ', ' ( ', '… ', '. ', ',', '?', ' ; ', ') '}. Whole-run procedure: documents of W ordinary words (2W tokens just above 2^10..2^16, 1000, 10 000, 50 000; thorough up to 2^20) followed by a tail in which small numbers are linked across punctuation / a linking word: rewrite(prefix tail, t) == prefix ++ rewrite(tail, t) for t in {10, 0}. Non-trivial = distinct asb cases where A contains a number and B contains a word whose reading can depend on earlier state (fr neuf after le/du/l'/un, en o, a leading small number at t > 0) or A ends with the conjunction / separator word; plus all punct cases with both numbers >= 20.".into()
     }
     fn assumptions(&self) -> Vec<String> {
         vec!["the French determiners un/le/du/l' and `numéro` act at distance <= 3 by documented design (new/nine heuristic), so they are not 'ordinary' separator words".into()]
@@ -70,6 +70,50 @@ impl Property for C10 {
     }
     fn cases(&self, tier: Tier) -> u64 {
         tier.pick(2_000_000, 25_000_000)
+    }
+    fn extra(&self, tier: Tier, _seed: u64, obs: &mut Obs) -> Result<(), (String, serde_json::Value)> {
+        // long documents: a prefix of many ordinary words must not change how the tail is read
+        use super::common::{long_doc, long_doc_sizes, long_doc_tails};
+        let jobs: Vec<(&'static str, usize, usize, String)> = LANGS
+            .iter()
+            .flat_map(|l| long_doc_sizes(tier == Tier::Thorough).into_iter().flat_map(move |sz| [0usize, 1, 3].into_iter().flat_map(move |sl| long_doc_tails(l).into_iter().map(move |t| (*l, sz, sl, t)))))
+            .collect();
+        let bad: std::sync::Mutex<Option<(String, serde_json::Value)>> = std::sync::Mutex::new(None);
+        let n = std::sync::atomic::AtomicU64::new(0);
+        std::thread::scope(|s| {
+            for th in 0..16usize {
+                let (jobs, bad, n) = (&jobs, &bad, &n);
+                s.spawn(move || {
+                    for (i, (l, sz, sl, tail)) in jobs.iter().enumerate() {
+                        if i % 16 != th || bad.lock().unwrap().is_some() {
+                            continue;
+                        }
+                        let lg = lang(l);
+                        let (prefix, tail) = long_doc(l, *sz, *sl, tail);
+                        let doc = format!("{}{}", prefix, tail);
+                        for t in [10.0f64, 0.0] {
+                            let r = std::panic::catch_unwind(|| (replace_numbers_in_text(&doc, lg, t), replace_numbers_in_text(&tail, lg, t)));
+                            let Ok((out, rt)) = r else { continue };
+                            n.fetch_add(1, std::sync::atomic::Ordering::Relaxed);
+                            if out.len() != prefix.len() + rt.len() || !out.starts_with(&prefix) || !out.ends_with(&rt) {
+                                let shown: String = out.chars().rev().take(80).collect::<Vec<_>>().into_iter().rev().collect();
+                                *bad.lock().unwrap() = Some((
+                                    format!("[{}] threshold {}: after {} ordinary words ({} tokens) the tail {:?} is rewritten as {:?}, on its own as {:?}", l, t, sz / 2 + sl, 2 * (sz / 2 + sl), tail, shown, rt),
+                                    json!({"lang": l, "shape": "asb", "a_text": format!("<{} x {:?}>", sz / 2 + sl, vocab_of(l).fillers[0]), "sep": " ", "b_text": tail, "th_bits": t.to_bits(), "a": 0, "b": 0, "ca": [], "cb": []}),
+                                ));
+                                return;
+                            }
+                        }
+                    }
+                });
+            }
+        });
+        obs.evaluations += n.load(std::sync::atomic::Ordering::Relaxed);
+        obs.label("long-document-prefix-independence");
+        match bad.into_inner().unwrap() {
+            Some(e) => Err(e),
+            None => Ok(()),
+        }
     }
     fn check(&self, c: &Case, obs: &mut Obs) -> Result<(), String> {
         let lg = lang(&c.lang);
